@@ -94,7 +94,14 @@ func (t *Tree) parseUntilTag(start Pos, names ...string) (*BodyNode, error) {
 			if contains(names, tok.value) {
 				return n, nil
 			}
-			t.backup3()
+			// Un-read everything back to and including the tag's opening
+			// delimiter (there may or may not be whitespace before the name).
+			for {
+				t.backup()
+				if t.unread[len(t.unread)-1].tokenType == tokenTagOpen {
+					break
+				}
+			}
 			o, err := t.parse()
 			if err != nil {
 				return n, err
